@@ -320,10 +320,17 @@ Definition same_base (b1 b2 : option term) : bool :=
   end.
 
 (* byte ranges [a1,a1+n1) and [a2,a2+n2) are disjoint in every state *)
+(* two constant offsets: the ranges are compared exactly (byte addresses do not wrap around in the reference semantics) *)
+Definition disj_const (n1 : Z) (a1 : term) (n2 : Z) (a2 : term) : bool :=
+  match a1, a2 with
+  | TConst c1, TConst c2 => (c1 + n1 <=? c2) || (c2 + n2 <=? c1)
+  | _, _ => false
+  end.
+
 Definition disj (n1 : Z) (a1 : term) (n2 : Z) (a2 : term) : bool :=
   let (b1, c1) := split_addr a1 in
   let (b2, c2) := split_addr a2 in
-  (n1 =? 0) || (n2 =? 0) ||
+  disj_const n1 a1 n2 a2 || (n1 =? 0) || (n2 =? 0) ||
   (same_base b1 b2 && (0 <=? n1) && (0 <=? n2) &&
    (let d := (c2 - c1) mod W in (n1 <=? d) && (d <=? W - n2))).
 
